@@ -23,8 +23,9 @@ ASSUMPTIONS = ['membership of a character in \\p{..}, \\d, \\w, \\i, \\c is asse
                'known finding C11-backref-escape: \\<digit> in the schema dialect is not generated as a malformed pattern',
                'search dialect: asserted are the boolean verdict (some substring is a member), the match start (leftmost) and that the reported '
                'match is a member; WHICH of several possible ends is reported is implementation-defined and only used for consistency checks']
-BUDGET = {"quick": 450, "thorough": 4000}
+BUDGET = {"quick": 320, "thorough": 3200}
 WALLCAP = {'quick': 420, 'thorough': 2700}
+if os.environ.get('C11_BUDGET'): BUDGET = {'quick': int(os.environ['C11_BUDGET']), 'thorough': int(os.environ['C11_BUDGET'])}     # development knob (sensitivity runs)
 
 EXCLUDE_FIRST_SUCCESS = os.environ.get('C11_NO_EXCLUDE', '') == ''      # set C11_NO_EXCLUDE=1 once the finding is fixed in the tree
 F_FIRST = 'C11-schema-first-success'
@@ -32,6 +33,12 @@ F_BACKREF = 'C11-backref-escape'
 F_FIXEDEND = 'C11-fixedstring-endpos'
 F_RECURSION = 'C11-nested-nullable-closure-recursion'
 F_HEAD_ANY = 'C11-headchar-dot-swallowed'
+F_HEAD_EMPTY = 'C11-headchar-empty-class-oob'
+F_ADDRANGE = 'C11-addrange-tail-overlap'
+F_SURR_OVERLAP = 'C11-overlap-surrogate'
+F_DOTSTAR = 'C11-dotstar-prefix-start'
+EXCLUDE_SURR_OVERLAP = os.environ.get('C11_NO_EXCLUDE_SURR', '') == ''
+EXCLUDE_ADDRANGE = os.environ.get('C11_NO_EXCLUDE_ADDRANGE', '') == ''
 F_HEAD_SURR = 'C11-headchar-surrogate'
 EXCLUDE_RECURSION = os.environ.get('C11_NO_EXCLUDE_RECURSION', '') == ''
 
@@ -137,6 +144,10 @@ def check_pattern(c, ex, st_, tier):
     ast = c['ast']
     if EXCLUDE_RECURSION and rm.nested_nullable_closure(ast):
         st_.excluded_known[F_RECURSION] += 1; return        # known finding: unbounded recursion (stack overflow) in RegularExpression::match
+    if EXCLUDE_SURR_OVERLAP and rm.surrogate_overlap_risk(ast):
+        st_.excluded_known[F_SURR_OVERLAP] += 1; return     # known finding: possessive closure chosen by comparing a UTF-16 unit with a code point
+    if EXCLUDE_ADDRANGE and rm.addrange_drop_risk(ast):
+        st_.excluded_known[F_ADDRANGE] += 1; return         # known finding: RangeToken::addRange drops a range that overlaps the tail of the last range
     try:
         lang0 = rm.Lang(ast)
     except rm.TooBig:
@@ -149,9 +160,16 @@ def check_pattern(c, ex, st_, tier):
     except rm.TooBig:
         st_.extra['too_big'] = st_.extra.get('too_big', 0) + 1; return
     text = rm.render(ast, True)
-    # the pattern's alphabet: base literals + extras, all with definite membership for this pattern
+    # the pattern's alphabet: base literals, then characters taken from the atoms' own sets (lowest / highest / middle member, so
+    # that range and subtraction boundaries are hit), then extras -- all with definite membership for this pattern
+    cand = []
+    for aset in lang.sets:
+        ms = sorted(ch for ch in aset if ch not in lang.unsafe and ch != sentinel)
+        if ms: cand += [ms[0], ms[-1], ms[len(ms) // 2]]
+    picks = c['tapes'][0]
+    chosen = [cand[x % len(cand)] for x in picks[:3]] if cand else []
     syms = []
-    for ch in list(c['base']) + c['extra']:
+    for ch in list(c['base'][:2]) + chosen + c['extra'] + list(c['base'][2:]):
         if ch not in lang.unsafe and ch not in syms and ch != sentinel: syms.append(ch)
     syms = syms[:3 if sentinel else 4]
     if sentinel: syms.append(sentinel)
@@ -332,7 +350,13 @@ def check_search(c, ast, lang_schema, ex, st_, subjects, nshort):
     st_.labels['search-opts:' + (sopts or '-')] += 1
     res = {}
     baseo = sopts + 'H'
-    for o in (baseo, sopts, sopts + 'F', 'H' + sopts + 'F'):
+    variants = (baseo, sopts, sopts + 'F', 'H' + sopts + 'F')
+    if rm.has_class_subtraction(ast):
+        # known finding: the head-character analysis reads out of bounds when an alternative starts with an EMPTY class (only
+        # class subtraction can produce one): such patterns are compiled with option H only
+        st_.excluded_known[F_HEAD_EMPTY] += 1
+        variants = (baseo, 'H' + sopts + 'F')
+    for o in variants:
         try:
             head, v = call(ex, 'regex', text, o, subset, 'rp')
         except Watchdog:
@@ -346,8 +370,11 @@ def check_search(c, ast, lang_schema, ex, st_, subjects, nshort):
     base = res[baseo]
     litonly = literal_only(ast)
     hasdot = any(n[0] == 'dot' for n in rm.walk(ast))
+    dotstar = (not dotall) and rm.starts_with_dot_closure(ast)
     for s, f, got in zip(subset, exp, base):
         if f == 'drop': continue
+        if dotstar and any(ch in s for ch in '\n\r'):
+            st_.excluded_known[F_DOTSTAR] += 1; continue      # known finding: the '.*' prefix shortcut never tries a start offset that holds a line end
         mk = lambda detail, expected: PropertyFailure({'kind': 'search', 'pattern': text, 'opts': baseo, 'subject': s, 'expected': expected}, detail)
         if (got[0] == '1') != (f is not None):
             raise mk('non-schema pattern %r opts %r subject %r: matches=%s, model/re say a matching substring %s' % (text, baseo, s, got, 'exists' if f else 'does not exist'), None if f is None else [f[0], sorted(f[1])])
@@ -385,6 +412,7 @@ def check_search(c, ast, lang_schema, ex, st_, subjects, nshort):
     st_.labels['tokenize-replace' + ('-nullable' if nullable else '')] += 1
     for s, a, t, r, p in zip(subset, am, tk, rp, pm):
         mk = lambda detail: PropertyFailure({'kind': 'tokrep', 'pattern': text, 'opts': sopts, 'subject': s, 'rep': c['repl'], 'nullable': nullable}, detail)
+        if dotstar and any(ch in s for ch in '\n\r'): continue
         if nullable:
             if not (t.startswith('E\tXMLException\tRuntimeException') and r.startswith('E\tXMLException\tRuntimeException')):
                 raise mk('pattern %r matches the empty string: tokenize/replace must throw RuntimeException, got %r / %r' % (text, t, r))
@@ -502,3 +530,28 @@ def _replay_tokrep(case, ex):
         wantr = ''.join(toks[i] + (expand_replacement(rep, usub(s, *spans[i]), [(0, spans[i][1] - spans[i][0])]) if i < len(spans) else '') for i in range(len(toks)))
         if xv.unesc(r[2:]) != wantr: return False, 'replace %r vs splice %r' % (xv.unesc(r[2:]), wantr)
     return True, 'ok'
+
+# ------------------------------------------------------------------------------------------------------------------
+# known findings on the unchanged tree (ids to be entered in known_findings.json by the integrator): witnesses + classification
+# ------------------------------------------------------------------------------------------------------------------
+S1 = '\U00010000'
+KNOWN = [
+    (F_FIRST, {'kind': 'member', 'pattern': 'a*(ab)*', 'opts': 'X', 'mode': 'r', 'subject': 'ab', 'win': None, 'expected': True}),
+    (F_BACKREF, {'kind': 'malformed', 'pattern': 'a\\1', 'opts': 'X', 'rule': 'backref-escape'}),
+    (F_FIXEDEND, {'kind': 'search', 'pattern': '\\.', 'opts': 'H', 'subject': '..', 'expected': [0, [1]]}),
+    (F_RECURSION, {'kind': 'crash', 'req': 'regex', 'pattern': '(a{0,1})*b', 'opts': 'X', 'subjects': ['a'], 'mode': 'r', 'wins': None, 'rep': None}),
+    (F_HEAD_ANY, {'kind': 'search', 'pattern': '.{1,2}b', 'opts': '', 'subject': 'ab', 'expected': [0, [2]]}),
+    (F_HEAD_SURR, {'kind': 'search', 'pattern': '[' + S1 + 'a]', 'opts': '', 'subject': S1, 'expected': [0, [1]]}),
+    (F_HEAD_EMPTY, {'kind': 'crash', 'req': 'regex', 'pattern': '[a-c-[a-z]]|a', 'opts': '', 'subjects': ['a'], 'mode': 'r', 'wins': None, 'rep': None}),
+    (F_ADDRANGE, {'kind': 'member', 'pattern': '[a-cb-e]', 'opts': 'X', 'mode': 'r', 'subject': 'd', 'win': None, 'expected': True}),
+    (F_SURR_OVERLAP, {'kind': 'member', 'pattern': S1 + S1 + '*' + S1 + S1, 'opts': 'X', 'mode': 'r', 'subject': S1 * 3, 'win': None, 'expected': True}),
+    (F_DOTSTAR, {'kind': 'search', 'pattern': '.*[\n]', 'opts': 'H', 'subject': '\nx', 'expected': [0, [1]]}),
+]
+def known_witnesses(): return list(KNOWN)
+def classify(case, detail):
+    for kid, w in KNOWN:
+        if case == w: return kid
+    if case.get('kind') == 'crash':
+        if 'stack-overflow' in detail and 'RegularExpression::match' in detail: return F_RECURSION
+        if 'RangeToken::addRange' in detail and 'SEGV' in detail: return F_HEAD_EMPTY
+    return None
